@@ -83,6 +83,15 @@ fn fanout2(n: int) -> int {
 }
 fn say(x: int) { println("say", x); }
 fn flag(b: bool, f: float) -> bool { !b && f > 1.0 }
+fn get_hist() -> [int] { hist }
+fn mk_list(n: int) -> [int] {
+    let l: [int] = [];
+    for i in 0..n { l.push(i * 2); }
+    l
+}
+fn pair(a: str, b: bool) -> { s: str, b: bool } { new { s: a + "!", b: !b } }
+fn sum3(a: int, b: int, c: int) -> int { a * 100 + b * 10 + c }
+fn nothing(x: int) { let unused = x + 1; }
 fn main() {}
 `
 
@@ -137,6 +146,24 @@ func wantStr(x string) func(value.Value) string {
 	}
 }
 
+func wantIntList(want []int64) func(value.Value) string {
+	return func(v value.Value) string {
+		l, ok := v.(value.ValueList)
+		if !ok {
+			return fmt.Sprintf("returned %T, want a list", v)
+		}
+		if len(*l.Values) != len(want) {
+			return fmt.Sprintf("returned a list of %d elements, want %d", len(*l.Values), len(want))
+		}
+		for i, e := range *l.Values {
+			if msg := wantInt(want[i])(*e); msg != "" {
+				return fmt.Sprintf("element %d: %s", i, msg)
+			}
+		}
+		return ""
+	}
+}
+
 func wantNull(v value.Value) string {
 	if v != nil {
 		if _, ok := v.(value.ValueNull); !ok {
@@ -171,7 +198,44 @@ func c16GenOp(s *simrt.Sim, m *c16Model, pfault int, force int) c16Op {
 			// handled by the caller: print fault / cancel fault on an ordinary op
 		}
 	}
-	switch pick(16, "op") {
+	switch pick(21, "op") {
+	case 16:
+		want := append([]int64(nil), m.log...)
+		return c16Op{fn: "get_hist", desc: "get_hist()", check: wantIntList(want)}
+	case 17:
+		n := []int64{0, 1, 3, 7}[pick(4, "arg")]
+		var want []int64
+		for i := int64(0); i < n; i++ {
+			want = append(want, i*2)
+		}
+		return c16Op{reusable: true, fn: "mk_list", args: []value.Value{vInt(n)}, desc: fmt.Sprintf("mk_list(%d)", n), check: wantIntList(want)}
+	case 18:
+		a := strArgs[pick(len(strArgs), "arg")]
+		b := pick(2, "arg") == 1
+		return c16Op{reusable: true, fn: "pair", args: []value.Value{vStr(a), vBool(b)}, desc: fmt.Sprintf("pair(%q,%v)", a, b), check: func(v value.Value) string {
+			o, ok := v.(value.ValueObject)
+			if !ok || len(o.FieldsInternal) != 2 {
+				return fmt.Sprintf("returned %T, want an object with fields s and b", v)
+			}
+			sv, ok1 := o.FieldsInternal["s"]
+			bv, ok2 := o.FieldsInternal["b"]
+			if !ok1 || !ok2 {
+				return "object lacks field s or b"
+			}
+			if msg := wantStr(a + "!")(*sv); msg != "" {
+				return "field s: " + msg
+			}
+			if bb, ok := (*bv).(value.ValueBool); !ok || bb.Inner != !b {
+				return "field b is wrong"
+			}
+			return ""
+		}}
+	case 19:
+		a, b, c := int64(pick(10, "arg")), int64(pick(10, "arg")), int64(pick(10, "arg"))
+		return c16Op{reusable: true, fn: "sum3", args: []value.Value{vInt(a), vInt(b), vInt(c)}, desc: fmt.Sprintf("sum3(%d,%d,%d)", a, b, c), check: wantInt(a*100 + b*10 + c)}
+	case 20:
+		x := intArgs[pick(len(intArgs), "arg")]
+		return c16Op{reusable: true, fn: "nothing", args: []value.Value{vInt(x)}, desc: fmt.Sprintf("nothing(%d)", x), check: wantNull}
 	case 15:
 		n := []int64{1, 2, 3}[pick(3, "arg")]
 		return c16Op{fn: "fanout2", args: []value.Value{vInt(n)}, desc: fmt.Sprintf("fanout2(%d)", n), check: wantInt(n * 2), reusable: true, apply: func(m *c16Model) {
